@@ -309,6 +309,11 @@ def gen_trace_scale(r, shape=None, min_n=0):
     if shape == 'many':
         nk = r.choice([70, 140, 270])
         keys = [[s] for s in (r.sample(range(0, 320), nk) if r.random() < 0.5 else list(range(nk)))]
+        # always two pairs of slots that are equal modulo 256 (k, k + 256), live together and fed one right after the
+        # other (tables indexed by the low byte of a slot must not confuse them)
+        pairs = [[3], [259], [40], [296]]
+        keys = pairs + [k for k in keys if k not in pairs]
+        nk = len(keys)
         trace, made = [], []
         wave = r.choice([1, 7, 16, nk])        # keys are created in waves, earlier keys receive items in between
         rnd = 0
